@@ -209,7 +209,9 @@ pub fn replay_case(case: &J) -> Vec<Failure> {
 
 /// every case printed the same when the list is executed forwards and backwards inside one thread
 pub fn order_independent(cases: &[(String, String, Vec<String>)], kind: &str) -> (Vec<Failure>, u64) {
+    // one running flag for all executions of a direction, as a caller that keeps its handle between queries would do
     let run_all = |order: Vec<usize>| -> Vec<(usize, Option<Vec<String>>)> {
+        let shared = std::sync::Arc::new(std::sync::atomic::AtomicBool::new(true));
         order
             .into_iter()
             .map(|i| {
@@ -219,7 +221,7 @@ pub fn order_independent(cases: &[(String, String, Vec<String>)], kind: &str) ->
                     let st = sut::parse(stmt).ok()?;
                     let lrefs: Vec<&str> = lines.iter().map(|s| s.as_str()).collect();
                     let one = bytes_of(&lrefs, "\n", true);
-                    match sut::run_files(&tables, &st, &[one.as_slice()], FileRunOpts::default()) {
+                    match sut::run_files(&tables, &st, &[one.as_slice()], FileRunOpts { running: shared.clone(), ..FileRunOpts::default() }) {
                         Outcome::Ok(fr) => Some(fr.printed.iter().cloned().chain(std::iter::once(format!("result={:?}", fr.result.is_ok()))).collect()),
                         Outcome::Err(e) => Some(vec![format!("error:{}", msg_class(&e))]),
                         Outcome::Panic(p) => Some(vec![format!("panic:{}", p.msg)]),
